@@ -248,14 +248,27 @@ fn fmt_source_code_trace(
 }
 
 fn highlight_substring(line: &str, start: usize, length: usize) -> String {
-    if line.len() < start + length {
+    // `start` and `length` are measured in characters, so they are converted
+    // to byte offsets before slicing.
+    let mut boundaries = line
+        .char_indices()
+        .map(|(i, _)| i)
+        .chain(std::iter::once(line.len()));
+    let Some(start) = boundaries.nth(start) else {
         return line.into();
-    }
+    };
+    let end = match length {
+        0 => start,
+        _ => match boundaries.nth(length - 1) {
+            Some(end) => end,
+            None => return line.into(),
+        },
+    };
     format![
         "{}{}{}",
         &line[..start],
-        (&line[start..start + length]).bold(),
-        line[start + length..].trim_end(),
+        (&line[start..end]).bold(),
+        line[end..].trim_end(),
     ]
 }
 
